@@ -20,6 +20,10 @@ var (
 func loadAnchorLits() {
 	anchorLits = map[string]bool{}
 	re := regexp.MustCompile(`"((?:[^"\\]|\\.)*)"`)
+	// a ".name" literal that only ever occurs as the pattern of a strings.HasSuffix test (an access-path or callee-name match) is not
+	// a piece a role name is assembled from
+	reSuffixTest := regexp.MustCompile(`HasSuffix\([^,()]+(?:\([^()]*\))?[^,()]*,\s*"(\.[^"]*)"`)
+	total, inTest := map[string]int{}, map[string]int{}
 	ents, _ := ruleSources.ReadDir(".")
 	for _, en := range ents {
 		b, err := ruleSources.ReadFile(en.Name())
@@ -31,10 +35,19 @@ func loadAnchorLits() {
 			if l == "" || strings.ContainsAny(l, " \t%") {
 				continue
 			}
-			anchorLits[l] = true
-			if strings.HasPrefix(l, ".") {
-				anchorSuffix = append(anchorSuffix, l)
-			}
+			total[l]++
+		}
+		for _, m := range reSuffixTest.FindAllStringSubmatch(string(b), -1) {
+			inTest[m[1]]++
+		}
+	}
+	for l, n := range total {
+		if strings.HasPrefix(l, ".") && inTest[l] >= n {
+			continue
+		}
+		anchorLits[l] = true
+		if strings.HasPrefix(l, ".") {
+			anchorSuffix = append(anchorSuffix, l)
 		}
 	}
 }
